@@ -1,0 +1,28 @@
+//go:build verif
+
+// Contracts for package url, checked by /verif/govc (comment-only file; no code).
+package url
+
+//@ define isHexDigit(c int) bool := (c >= '0' && c <= '9') || (c >= 'a' && c <= 'f') || (c >= 'A' && c <= 'F')
+//@ define hexVal(c int) int := ite(c <= '9', c - '0', ite(c >= 'a', c - 'a' + 10, c - 'A' + 10))
+
+//@ func hexDigitToByte props C03,C07
+//@   ensures result1 == isHexDigit(digit)
+//@   ensures result1 ==> result0 == hexVal(digit)
+
+// dec(s, i) is the output after decoding exactly the tokens that end at position i:
+// '+' -> ' ', %XY (two hex digits) -> the byte 16*X+Y, any other byte copied. One pass, never re-decoded.
+//@ spec dec(s string, i int) string
+//@ axiom dec0: forall s string :: dec(s, 0) == ""
+//@ axiom decPlus: forall s string, i int :: 0 <= i && i < len(s) && s[i] == '+' ==> dec(s, i+1) == dec(s, i) + unit(' ')
+//@ axiom decHex: forall s string, i int :: 0 <= i && i+2 < len(s) && s[i] == '%' && isHexDigit(s[i+1]) && isHexDigit(s[i+2])
+//@     ==> dec(s, i+3) == dec(s, i) + unit(16*hexVal(s[i+1]) + hexVal(s[i+2]))
+//@ axiom decLit: forall s string, i int :: 0 <= i && i < len(s) && s[i] != '+' &&
+//@     !(s[i] == '%' && i+2 < len(s) && isHexDigit(s[i+1]) && isHexDigit(s[i+2])) ==> dec(s, i+1) == dec(s, i) + unit(s[i])
+
+//@ func queryUnescape props C03,C07
+//@   ensures result == dec(input, len(input))
+//@   loop 1 vars i
+//@     invariant 0 <= i && i <= len(input)
+//@     invariant res.content == dec(input, i)
+//@     decreases len(input) - i
